@@ -156,6 +156,12 @@ def py_fingerprint(fn):
                     preds.add((py_name(r), FLIPOP.get(opn, opn), num(l.value)))
                 else:
                     preds.add((py_name(l), opn, py_name(r)))
+        if isinstance(n, ast.Call) and isinstance(n.func, ast.Name) and n.func.id in ('all', 'any') and len(n.args) == 1 and not n.keywords:
+            # a quantified truth test over a collection: all(row) / any(...) is a predicate of its own (every element truthy)
+            a = n.args[0]
+            if isinstance(a, (ast.GeneratorExp, ast.ListComp)):
+                a = a.generators[0].iter
+            preds.add((py_name(a), 'All' if n.func.id == 'all' else 'Any', True))
         if isinstance(n, ast.Constant) and isinstance(n.value, (int, float)) and not isinstance(n.value, bool):
             p = getattr(n, '_parent', None)
             if isinstance(p, (ast.Subscript, ast.Slice)) or (isinstance(p, ast.UnaryOp) and isinstance(getattr(p, '_parent', None), (ast.Subscript, ast.Slice))):
@@ -230,6 +236,10 @@ def js_fingerprint(fn):
                 preds.add((js_name(obj), 'Contains', arg.get('value')))
             else:
                 preds.add((js_name(obj), 'Contains', js_name(arg)))
+    for n in jwalk(fn):
+        if n['type'] == 'CallExpression' and n['callee']['type'] == 'MemberExpression' and not n['callee']['computed'] \
+                and n['callee']['property'].get('name') in ('every', 'some') and len(n['arguments']) >= 1:
+            preds.add((js_name(n['callee']['object']), 'All' if n['callee']['property']['name'] == 'every' else 'Any', True))
     for n in jwalk(fn):
         if n['type'] == 'Literal' and isinstance(n.get('value'), (int, float)) and not isinstance(n.get('value'), bool) and id(n) not in skip:
             consts.append(float(n['value']))
